@@ -1,6 +1,7 @@
 import RSV.Props.C17
 import RSV.Props.C17leo
 import RSV.Props.C17gf16
+import RSV.Props.C17gf16lut
 /-! C17 umbrella: static GF(2^8) tables (`RSV.Props.C17`) and Leopard GF(2^8) run-time tables and constants
 (`RSV.Props.C17leo`) -/
 namespace RSV.Props.C17all
